@@ -76,7 +76,9 @@ def hand_layouts():
             [(B1, 1), (R32, 32)], [(U8, 4), (R64, 32 + 32)][:1] + [(R32, 32)], [(I8, 1), (I8, 2), (I8, 3), (I8, 4), (I8, 5), (I8, 6), (I8, 7)],
             [(U8, 7), (U8, 7), (U8, 7), (U8, 7), (U8, 7), (U8, 7), (U8, 7), (U8, 7)], [(B1, 1), (I64, 32 + 31)][:1] + [(I32, 32), (I8, 7), (U16, 16), (I8, 8)],
             [(U8, 8), (I16, 16), (U32, 32), (I8, 8)], [(I64, 64)], [(U64, 64)], [(R64, 64)], [(U8, 3), (0x16, 24), (0x10, 24), (I8, 5)],
-            [(I8, 4), (0x12, 40), (U8, 4)], [(U8, 1), (0x19, 48), (I8, 7)], [(B1, 1), (0x14, 56), (I8, 7)], [(U8, 2), (0x1A, 56), (U8, 6)]]
+            [(I8, 4), (0x12, 40), (U8, 4)], [(U8, 1), (0x19, 48), (I8, 7)], [(B1, 1), (0x14, 56), (I8, 7)], [(U8, 2), (0x1A, 56), (U8, 6)],
+            # wider objects mapped with fewer bits than they have (beyond the listed quantifier: partial mappings)
+            [(U16, 12), (U8, 4), (U16, 16), (U8, 3)], [(I16, 12), (I8, 4)], [(U8, 4), (U16, 12), (U32, 20), (U8, 4)]]
     return [[list(x) for x in l] for l in lays]
 
 
